@@ -116,6 +116,13 @@ func genC15(g *Gen) *Plan {
 		l.ReqHeaders = pick(g, nil, []string{"X-Added-Req:two"})
 		l.RespHeaders = pick(g, nil, []string{"X-Added-Resp:v2"})
 		l.QueryStrings = pick(g, nil, []string{"added:2"})
+		if len(l.Rewrites) > 0 && g.p(0.5) {
+			// same patterns, other targets
+			rw := append([]string(nil), l.Rewrites...)
+			last := strings.SplitN(rw[len(rw)-1], ":", 2)
+			rw[len(rw)-1] = last[0] + ":/moved" + last[1]
+			l.Rewrites = rw
+		}
 		c2.Locations[0] = l
 		p.Configs = append(p.Configs, c2)
 		reloadAt = n / 2
